@@ -56,6 +56,8 @@ type ExchangeOptions struct {
 	// SharedParamObjects: half of the object-shaped parameters take their schema from a component
 	// that is also the JSON body of a 202 response of the same operation.
 	SharedParamObjects bool
+	// PropDefaults: see Options.PropDefaults.
+	PropDefaults bool
 }
 
 func primSchema(t *rapid.T, eo ExchangeOptions) *Schema {
@@ -100,7 +102,7 @@ var exNames = []string{"a", "b", "c", "id", "name", "value", "kind", "q", "limit
 // operations with parameters from every admitted style cell, JSON bodies and
 // several response shapes (codes, patterns, default, headers).
 func GenExchangeDoc(t *rapid.T, eo ExchangeOptions) Doc {
-	opt := Options{MaxDepth: 2, Validators: eo.Validators, Sums: true, AllOf: false, Refs: true, Nullable: true, Maps: true, Defaults: eo.Defaults, Docs: eo.Docs}
+	opt := Options{MaxDepth: 2, Validators: eo.Validators, Sums: true, AllOf: false, Refs: true, Nullable: true, Maps: true, Defaults: eo.Defaults, Docs: eo.Docs, PropDefaults: eo.PropDefaults}
 	dense := eo.Docs && (eo.DenseDocs || rapid.IntRange(0, 2).Draw(t, "densedocs") == 0)
 	opt.DocsDense = dense
 	comps := GenComponents(t, opt, rapid.IntRange(1, 4).Draw(t, "ncomp"))
